@@ -120,9 +120,9 @@ def wrap(x):
         return Num(float(x))
     if isinstance(x, np.ndarray):
         return [wrap(e) for e in x.tolist()] if x.ndim else wrap(x.item())
-    if isinstance(x, (list, tuple)):
+    if type(x) in (list, tuple):
         return type(x)(wrap(e) for e in x)
-    if isinstance(x, dict):
+    if type(x) is dict:
         return {k: wrap(v) for k, v in x.items()}
     if isinstance(x, np.str_):
         return str(x)
@@ -195,6 +195,12 @@ def length(s):
 
 def is_int(v):
     return isinstance(v, int) and not isinstance(v, bool)
+
+
+def is_integral(v):
+    import numpy as np
+
+    return isinstance(v, (int, np.integer)) and not isinstance(v, (bool, np.bool_))
 
 
 def is_str(v):
@@ -295,6 +301,47 @@ def _max(*a):
         elif _f(x) > _f(best):
             best = x
     return best
+
+
+def sorted_ints(xs):
+    return sorted(xs)
+
+
+def records(wl):
+    return list(wl)
+
+
+def printable(s):
+    return not isinstance(s, str) or ("\n" not in s and "\r" not in s)
+
+
+def no_sep(s):
+    return ";" not in s and "\n" not in s and "\r" not in s
+
+
+def fmt_int(x):
+    return str(int(_f(x)))
+
+
+def fmt_num(x):
+    return str(_f(x))
+
+
+def tip_field(tip):
+    m = tipmask(tip)
+    return "" if m == -1 else str(m)
+
+
+def gwl_record(kind, fields):
+    return ";".join([kind] + list(fields))
+
+
+def strip(s):
+    return s.strip()
+
+
+def substr(s, lo, hi):
+    return s[int(_f(lo)):int(_f(hi))]
 
 
 def same(a, b):
